@@ -53,6 +53,7 @@ PacketSent(sp, pn, size, t) ==
 \* an acknowledged range: unresolved packets in it are resolved (re-acknowledging is a no-op)
 AckRange(sp, lo, hi) ==
   LET K == {pn \in DOMAIN sent[sp] : lo <= pn /\ pn <= hi} IN
+  /\ hi <= resolvedMax[sp]                            \* an acknowledgement that is processed names only packets that were sent
   /\ sent' = [sent EXCEPT ![sp] = Del(@, K)]
   /\ bif' = bif - SumSizes(sent[sp], K)
   /\ largestAcked' = [largestAcked EXCEPT ![sp] = IF hi <= resolvedMax[sp] THEN Max2(@, hi) ELSE @]
